@@ -123,6 +123,22 @@ type TgMutEmbB struct {
 	Y int
 	*TgMutEmbA
 }
+// recursion that goes through an embedding AND a named field: an item embeds its base, the base has links (slice, map,
+// pointer) whose element embeds a pointer to an item again
+type TgItem struct {
+	TgItemBase
+	Name string
+}
+type TgItemBase struct {
+	ID    int
+	Links []TgItemLink
+	Refs  map[string]*TgItemLink
+	Next  *TgItemLink
+}
+type TgItemLink struct {
+	*TgItem
+	Rel string
+}
 type TgEmbOmitI struct {
 	Extra interface{} `json:"extra,omitempty"`
 	Note  string      `json:"note,omitempty"`
@@ -148,6 +164,7 @@ var tgNamed = []reflect.Type{
 	reflect.TypeOf(TgNamedInt(0)), reflect.TypeOf(TgNamedSlice(nil)), reflect.TypeOf(TgNamedMap(nil)), reflect.TypeOf(TgIntKey(0)),
 	reflect.TypeOf(TgRecEmb{}), reflect.TypeOf(TgMutEmbA{}), reflect.TypeOf(map[stdjson.Number]int(nil)),
 	reflect.TypeOf([]TgTextByte(nil)), reflect.TypeOf([]TgJSONByte(nil)), reflect.TypeOf([]TgPlainByte(nil)),
+	reflect.TypeOf(TgItem{}), reflect.TypeOf(TgItemLink{}),
 }
 
 var tgBasic = []reflect.Type{
@@ -224,7 +241,8 @@ func tgStruct(r *rand.Rand, depth int, o tgOpts) reflect.Type {
 	for i := 0; i < n; i++ {
 		name := fmt.Sprintf("F%d", i)
 		ft := tgType(r, depth, o)
-		if ft == reflect.TypeOf(TgRec{}) || ft == reflect.TypeOf(TgMutA{}) || ft == reflect.TypeOf(TgRecEmb{}) || ft == reflect.TypeOf(TgMutEmbA{}) {
+		if ft == reflect.TypeOf(TgRec{}) || ft == reflect.TypeOf(TgMutA{}) || ft == reflect.TypeOf(TgRecEmb{}) || ft == reflect.TypeOf(TgMutEmbA{}) ||
+			ft == reflect.TypeOf(TgItem{}) || ft == reflect.TypeOf(TgItemLink{}) {
 			// recorded finding RecursiveStructByValueField: a recursive struct held by value in a struct that is itself
 			// reached through a pointer field; the generator keeps recursive types behind pointers, in slices, maps and at top level
 			ft = reflect.PtrTo(ft)
